@@ -1279,3 +1279,185 @@ func MainErrorVar(info *types.Info, fd *ast.FuncDecl) types.Object {
 	}
 	return best
 }
+
+// EnumLocals returns the local variables of body (nested literals excluded) that are only ever assigned constants, at
+// least twice with different values: flags and small result codes (`sep = sepClose`) that a later switch or comparison
+// reads.  Sorted by position.
+func EnumLocals(info *types.Info, body ast.Node) []types.Object {
+	vals := map[types.Object]map[string]bool{}
+	bad := map[types.Object]bool{}
+	note := func(lhs ast.Expr, rhs ast.Expr) {
+		id, ok := unparen(lhs).(*ast.Ident)
+		if !ok {
+			return
+		}
+		v, ok := ObjOf(info, id).(*types.Var)
+		if !ok || v.IsField() || v.Pkg() == nil || v.Parent() == v.Pkg().Scope() {
+			return
+		}
+		if rhs == nil {
+			bad[v] = true
+			return
+		}
+		tv, ok := info.Types[rhs]
+		if !ok || tv.Value == nil {
+			bad[v] = true
+			return
+		}
+		if vals[v] == nil {
+			vals[v] = map[string]bool{}
+		}
+		vals[v][tv.Value.ExactString()] = true
+	}
+	WalkNoFuncLit(body, func(n ast.Node) bool {
+		switch x := n.(type) {
+		case *ast.AssignStmt:
+			for i, l := range x.Lhs {
+				if len(x.Lhs) == len(x.Rhs) {
+					note(l, x.Rhs[i])
+				} else {
+					note(l, nil)
+				}
+			}
+		case *ast.IncDecStmt:
+			note(x.X, nil)
+		case *ast.RangeStmt:
+			if x.Key != nil {
+				note(x.Key, nil)
+			}
+			if x.Value != nil {
+				note(x.Value, nil)
+			}
+		case *ast.UnaryExpr:
+			if x.Op == token.AND {
+				note(x.X, nil) // address taken: written elsewhere
+			}
+		}
+		return true
+	})
+	var out []types.Object
+	for v, s := range vals {
+		if !bad[v] && len(s) >= 2 && len(s) <= 7 {
+			out = append(out, v)
+		}
+	}
+	sort.Slice(out, func(i, j int) bool { return out[i].Pos() < out[j].Pos() })
+	return out
+}
+
+// TrackEnum wraps an automaton so that the constant last assigned to obj (one of EnumLocals) is part of every path's
+// state: comparisons and switch cases on obj refine it, and edges that contradict it are not taken.
+func TrackEnum(info *types.Info, obj types.Object, a *Automaton) *Automaton {
+	if obj == nil {
+		return a
+	}
+	const base = 9
+	index := map[string]int{}
+	idx := func(e ast.Expr) int {
+		tv, ok := info.Types[e]
+		if !ok || tv.Value == nil {
+			return 0
+		}
+		s := tv.Value.ExactString()
+		if index[s] == 0 {
+			if len(index) >= base-2 {
+				return 0
+			}
+			index[s] = len(index) + 1
+		}
+		return index[s]
+	}
+	enc := func(inner, k int) int {
+		if inner < 0 {
+			return inner
+		}
+		return inner*base + k
+	}
+	return &Automaton{
+		Init: enc(a.Init, 0),
+		Node: func(st int, n ast.Node) int {
+			inner, k := st/base, st%base
+			inner = a.Node(inner, n)
+			if inner < 0 {
+				return inner
+			}
+			switch x := n.(type) {
+			case *ast.AssignStmt:
+				for i, l := range x.Lhs {
+					if ObjOf(info, l) == obj {
+						k = 0
+						if len(x.Lhs) == len(x.Rhs) {
+							k = idx(x.Rhs[i])
+						}
+					}
+				}
+			case *ast.DeclStmt:
+				if gd, ok := x.Decl.(*ast.GenDecl); ok {
+					for _, sp := range gd.Specs {
+						if vs, ok := sp.(*ast.ValueSpec); ok {
+							for i, nm := range vs.Names {
+								if info.Defs[nm] == obj {
+									k = 0
+									if i < len(vs.Values) {
+										k = idx(vs.Values[i])
+									}
+								}
+							}
+						}
+					}
+				}
+			}
+			return enc(inner, k)
+		},
+		Edge: func(st int, facts []Fact) (int, bool) {
+			inner, k := st/base, st%base
+			for _, f := range facts {
+				be, ok := unparen(f.Expr).(*ast.BinaryExpr)
+				if !ok || (be.Op != token.EQL && be.Op != token.NEQ) {
+					continue
+				}
+				var other ast.Expr
+				switch {
+				case ObjOf(info, be.X) == obj:
+					other = be.Y
+				case ObjOf(info, be.Y) == obj:
+					other = be.X
+				default:
+					continue
+				}
+				j := idx(other)
+				if j == 0 {
+					continue
+				}
+				equal := (be.Op == token.EQL) == f.Val
+				switch {
+				case k != 0 && equal && k != j, k != 0 && !equal && k == j:
+					return st, false
+				case k == 0 && equal:
+					k = j
+				}
+			}
+			if a.Edge != nil {
+				var ok bool
+				inner, ok = a.Edge(inner, facts)
+				if !ok {
+					return st, false
+				}
+			}
+			return enc(inner, k), true
+		},
+		AtEnd: a.AtEnd,
+		Block: func() func(int, *cfg.Block) int {
+			if a.Block == nil {
+				return nil
+			}
+			return func(st int, b *cfg.Block) int {
+				inner := a.Block(st/base, b)
+				if inner < 0 {
+					return inner
+				}
+				return enc(inner, st%base)
+			}
+		}(),
+	}
+}
